@@ -255,6 +255,11 @@ def build(P, log):
         with open(os.path.join(COQ, props_v)) as f:
             txt = f.read()
         res['theorems'] = len(re.findall(r'^\s*(Theorem|Lemma|Corollary)\s', txt, re.M))
+        nvp = os.path.join(COQ, 'theories', P.ID, 'NonVacuity.v')
+        res['nonvacuity_examples'] = 0
+        if f'theories/{P.ID}/NonVacuity.vo' in proof_targets(P):
+            with open(nvp) as f:
+                res['nonvacuity_examples'] = len(re.findall(r'^\s*(Example|Lemma|Theorem)\s', f.read(), re.M))
         if ok2:
             tmp = coqrun.workdir(f'{P.ID}-props')
             cmd = ['timeout', '600', 'coqc', '-Q', 'theories', 'FV', '-w', 'none', props_v,
@@ -504,6 +509,7 @@ def check(P, tier, seed):
             'trusted_base': tb,
             'theorems_in_Properties_v': B['theorems'],
             'translator_facts': B['facts'],
+            'nonvacuity_examples_checked': B.get('nonvacuity_examples', 0),
             'evaluations': len(cases) + searched,
             'distinct_nontrivial': len(nontrivial),
             'rule': P.RULE,
